@@ -58,12 +58,12 @@ Qed.
 Lemma select_iff T rs excl inc n :
   node_is_selected T FDefault (Some rs) excl inc n = true <->
   (exists r l, In r rs /\ In l (rlocs r) /\ reports T (rcls r) (nkind n) (nspan n) l) /\
-  line_filter excl inc (nspan n) = true.
+  line_filter T excl inc (nspan n) = true.
 Proof. unfold node_is_selected. rewrite andb_true_iff, filter_by_result_default_iff. tauto. Qed.
 
 (** a codemod without detector results (results is None) selects by line filter only *)
 Lemma select_no_detector T excl inc n :
-  node_is_selected T FDefault None excl inc n = line_filter excl inc (nspan n).
+  node_is_selected T FDefault None excl inc n = line_filter T excl inc (nspan n).
 Proof. reflexivity. Qed.
 
 (** per-codemod overrides *)
@@ -74,7 +74,7 @@ Lemma select_fuzzy_iff T results excl inc n :
      pline (sstart (nspan n)) = pline (lstart l) /\ pline (send (nspan n)) = pline (lend l) /\
      pcol (sstart (nspan n)) <= pcol (lstart l) <= pcol (send (nspan n)) + 1 /\
      pcol (sstart (nspan n)) <= pcol (lend l) <= pcol (send (nspan n)) + 1) /\
-  line_filter excl inc (nspan n) = true.
+  line_filter T excl inc (nspan n) = true.
 Proof.
   unfold node_is_selected, filter_by_result. rewrite andb_true_iff.
   destruct (nkind n); try (split; [intros [H _]; discriminate | intros [H _]; discriminate]).
@@ -93,7 +93,7 @@ Lemma select_mktemp_iff T rs excl inc n :
   nkind n = KStmtLine /\
   (exists r l, In r rs /\ In l (rlocs r) /\
      pline (sstart (nspan n)) = pline (lstart l) /\ pline (send (nspan n)) = pline (lend l)) /\
-  line_filter excl inc (nspan n) = true.
+  line_filter T excl inc (nspan n) = true.
 Proof.
   unfold node_is_selected, filter_by_result. rewrite andb_true_iff.
   destruct (nkind n); try (split; [intros [H _]; discriminate | intros [H _]; discriminate]).
@@ -232,7 +232,7 @@ Qed.
 Lemma subset_exact T c cands S rs excl inc :
   discipline T c cands = true ->
   Forall2 (site_report T c) S rs -> incl S cands ->
-  forall n, In n cands -> line_filter excl inc (nspan n) = true ->
+  forall n, In n cands -> line_filter T excl inc (nspan n) = true ->
     (node_is_selected T FDefault (Some rs) excl inc n = true <-> In n S).
 Proof.
   intros Hd HF Hincl n Hn Hlf. rewrite select_iff. split.
@@ -499,7 +499,7 @@ Lemma join_iff T rs excl inc nodes n :
   In n (on_result_found_nodes T FDefault (Some rs) excl inc nodes) <->
   In n nodes /\ default_kind (nkind n) = true /\
   (exists r l, In r rs /\ In l (rlocs r) /\ reports T (rcls r) (nkind n) (nspan n) l) /\
-  line_filter excl inc (nspan n) = true.
+  line_filter T excl inc (nspan n) = true.
 Proof.
   unfold on_result_found_nodes. rewrite filter_In, andb_true_iff, select_iff. tauto.
 Qed.
@@ -548,3 +548,115 @@ Lemma short_id_suffix a b : no_dot b -> short_id (a ++ 46%N :: b) = b.
 Proof. intros H. unfold short_id. rewrite last_dotted_from_dot. now apply last_dotted_from_no_dot. Qed.
 Lemma short_id_plain b : no_dot b -> short_id b = b.
 Proof. intros H. unfold short_id. now apply last_dotted_from_no_dot. Qed.
+
+(** * The subset theorem for every filter override, with stale / unmatched results in the list (review A16) *)
+(** what filter_by_result tests for one result under override o *)
+Definition node_matches (T : ltab) (o : filter_override) (n : node) (r : result) : bool :=
+  match o with
+  | FDefault => match_location T (nkind n) (nspan n) r
+  | FFuzzyCall => node_kind_eqb (nkind n) KCall && fuzzy_match (nspan n) r
+  | FSameLineStmt => node_kind_eqb (nkind n) KStmtLine && line_only_match (nspan n) r
+  end.
+
+Lemma node_kind_eqb_eq a b : node_kind_eqb a b = true <-> a = b.
+Proof. destruct a, b; simpl; split; congruence. Qed.
+
+Lemma select_iff_any T o rs excl inc n :
+  node_is_selected T o (Some rs) excl inc n = true <->
+  (exists r, In r rs /\ node_matches T o n r = true) /\ line_filter T excl inc (nspan n) = true.
+Proof.
+  unfold node_is_selected. rewrite andb_true_iff.
+  assert (H : filter_by_result T o (Some rs) n = true <-> exists r, In r rs /\ node_matches T o n r = true).
+  { destruct o; unfold filter_by_result, node_matches; simpl.
+    - unfold results_for_node. apply nonempty_filter_iff.
+    - destruct (nkind n); simpl; try (split; [discriminate | intros [r [_ H]]; discriminate]). apply existsb_exists.
+    - destruct (nkind n); simpl; try (split; [discriminate | intros [r [_ H]]; discriminate]). apply existsb_exists. }
+  rewrite H. tauto.
+Qed.
+
+(** r reports exactly the site n: one location, and n answers to it under override o *)
+Definition site_report_o (T : ltab) (o : filter_override) (c : rclass) (n : node) (r : result) : Prop :=
+  (o = FDefault -> rcls r = c) /\ (exists l, rlocs r = [l]) /\ node_matches T o n r = true.
+(** a result that answers to no tested node (stale, foreign location, another construct) *)
+Definition unmatched (T : ltab) (o : filter_override) (tested : list node) (r : result) : Prop :=
+  forall n, In n tested -> node_matches T o n r = false.
+Definition wf_lines (n : node) : Prop := pline (sstart (nspan n)) <= pline (send (nspan n)).
+
+Lemma unique_any_override T o c cands tested :
+  discipline_for T o c cands tested = true -> incl tested cands -> (forall n, In n tested -> wf_lines n) ->
+  forall n m r, In n tested -> In m tested -> site_report_o T o c n r -> node_matches T o m r = true -> n = m.
+Proof.
+  intros Hd Hincl Hwf n m r Hn Hm [Hc [[l Hl] Hnr]] Hmr.
+  destruct o; unfold node_matches in *; simpl in Hd.
+  - specialize (Hc eq_refl). unfold match_location in Hnr, Hmr. rewrite Hl, Hc in *. simpl in Hnr, Hmr.
+    rewrite orb_false_r in Hnr, Hmr.
+    destruct c.
+    + apply (unique_site_any T RBase cands Hd n m l); auto.
+    + apply (unique_site_any T RSonar cands Hd n m l); auto.
+    + apply (unique_site_dd T tested Hd n m l); auto.
+  - apply andb_true_iff in Hnr, Hmr. destruct Hnr as [_ Hnr], Hmr as [_ Hmr]. unfold fuzzy_match in *. rewrite Hl in *.
+    simpl in Hnr, Hmr. rewrite orb_false_r in Hnr, Hmr. apply (unique_site_fuzzy tested Hd n m l); auto.
+  - apply andb_true_iff in Hnr, Hmr. destruct Hnr as [_ Hnr], Hmr as [_ Hmr]. unfold line_only_match in *. rewrite Hl in *.
+    simpl in Hnr, Hmr. rewrite orb_false_r in Hnr, Hmr. apply (unique_site_stmt_line tested Hd n m l); auto. apply Hwf; auto.
+Qed.
+
+Lemma subset_exact_any T o c cands tested S rs U excl inc :
+  discipline_for T o c cands tested = true -> incl tested cands -> (forall n, In n tested -> wf_lines n) ->
+  Forall2 (site_report_o T o c) S rs -> incl S tested -> Forall (unmatched T o tested) U ->
+  forall n, In n tested -> line_filter T excl inc (nspan n) = true ->
+    (node_is_selected T o (Some (rs ++ U)) excl inc n = true <-> In n S).
+Proof.
+  intros Hd Hincl Hwf HF HS HU n Hn Hlf. rewrite select_iff_any. split.
+  - intros [[r [Hr Hm]] _]. apply in_app_or in Hr. destruct Hr as [Hr | Hr].
+    + destruct (Forall2_in_right _ _ _ HF r Hr) as [m [Hm' Hrep]].
+      assert (m = n) by (eapply (unique_any_override T o c cands tested Hd Hincl Hwf m n r); auto). now subst.
+    + rewrite Forall_forall in HU. rewrite (HU r Hr n Hn) in Hm. discriminate.
+  - intros Hin. split; [| exact Hlf].
+    destruct (Forall2_in_left _ _ _ HF n Hin) as [r [Hr [_ [_ Hm]]]]. exists r. split; [apply in_or_app; now left | exact Hm].
+Qed.
+
+(** * Findings of a change entry, for locations that lie on the lines of their site (all classes incl. DefectDojo) *)
+(** r's only location starts on the start line of its site and ends within the site's lines *)
+Definition on_start_line (n : node) (r : result) : Prop :=
+  exists l, rlocs r = [l] /\ pline (lstart l) = pline (sstart (nspan n)) /\ pline (lend l) <= pline (send (nspan n)) /\
+            pline (lstart l) <= pline (lend l).
+(** r's only location lies within the lines of its site *)
+Definition within_lines (n : node) (r : result) : Prop :=
+  exists l, rlocs r = [l] /\ pline (sstart (nspan n)) <= pline (lstart l) /\ pline (lend l) <= pline (send (nspan n)).
+
+Lemma others_do_not_cover_lines n S rs :
+  wf_lines n -> Forall2 within_lines S rs -> (forall m, In m S -> lines_apart (nspan n) (nspan m) = true) ->
+  get_findings_for_location ByLineRange (Some rs) (pline (sstart (nspan n))) = [].
+Proof.
+  intros Hwf HF. simpl. induction HF as [| m r S rs Hmr HF IH]; simpl; intros Hap; [reflexivity |].
+  rewrite IH by (intros; apply Hap; now right).
+  destruct Hmr as [l [-> [L1 L2]]]. simpl. specialize (Hap m (or_introl eq_refl)). unfold lines_apart in Hap.
+  destruct (in_line_range (pline (sstart (nspan n))) l) eqn:E; [| reflexivity].
+  exfalso. unfold in_line_range in E. unfold wf_lines in Hwf. lia.
+Qed.
+
+Lemma own_finding_lines S1 n S2 rs1 r rs2 :
+  wf_lines n -> Forall2 within_lines S1 rs1 -> on_start_line n r -> Forall2 within_lines S2 rs2 ->
+  (forall m, In m (S1 ++ S2) -> lines_apart (nspan n) (nspan m) = true) ->
+  report_change ByLineRange (Some (rs1 ++ r :: rs2)) n = mkchange (pline (sstart (nspan n))) (finding_list r).
+Proof.
+  intros Hwf H1 Hr H2 Hap. unfold report_change. f_equal.
+  change (r :: rs2) with ([r] ++ rs2). rewrite !get_findings_app.
+  rewrite (others_do_not_cover_lines n S1 rs1), (others_do_not_cover_lines n S2 rs2); auto;
+    try (intros; apply Hap; apply in_or_app; auto).
+  rewrite app_nil_r. simpl. destruct Hr as [l [-> [L1 [L2 L3]]]]. simpl.
+  assert (E : in_line_range (pline (sstart (nspan n))) l = true) by (unfold in_line_range; lia).
+  rewrite E. unfold finding_list. now rewrite app_nil_r.
+Qed.
+
+(** * No change entry carries a finding of another rule (given the readers' invariant finding.rule = result.rule_id) *)
+Definition wf_finding (r : result) : Prop := forall f, rfinding r = Some f -> frule f = rrule_id r.
+Lemma no_foreign_finding a l rules file n f :
+  (forall r, In r l -> wf_finding r) ->
+  In f (ch_findings (report_change a (findings_for_rule (Some (of_results l)) rules file) n)) -> In (frule f) rules.
+Proof.
+  intros Hwf Hin. destruct a. unfold report_change in Hin. cbn [ch_findings] in Hin.
+  apply (proj1 (findings_by_line _ _ _)) in Hin. destruct Hin as [r [Hr [Hf _]]].
+  apply findings_for_rule_In in Hr. destruct Hr as [k [Hk Hr]]. apply lookup_of_results in Hr. destruct Hr as [Hl [<- _]].
+  rewrite (Hwf r Hl f Hf). exact Hk.
+Qed.
